@@ -66,9 +66,10 @@ Canon(stt, s) == LET a == IF stt.norm THEN NormStr(s) ELSE s IN IF stt.lower THE
 (*   "re_w1"    Tokenizer::Regex(\w+)               = maximal runs of \w                         *)
 (*   "re_s2"    Tokenizer::Regex(\S\S+)             = maximal runs of non-space, at least 2      *)
 (*   "fn_ws"    Tokenizer::Function(split_whitespace) = maximal runs of non-space                *)
-TokKinds == {"default", "re_w1", "re_s2", "fn_ws"}
-InClass(tok, ch) == IF tok \in {"default", "re_w1"} THEN IsWordCh(ch) ELSE ~IsSpace(ch)
-MinLen(tok)      == IF tok \in {"default", "re_s2"} THEN 2 ELSE 1
+(*   "re_b2"    Tokenizer::Regex(\b[^ ][^ ]+\b)      see below                                     *)
+TokKinds == {"default", "re_w1", "re_s2", "fn_ws", "re_b2"}
+InClass(tok, ch) == IF tok \in {"default", "re_w1"} THEN IsWordCh(ch) ELSE IF tok = "re_b2" THEN ch # 32 ELSE ~IsSpace(ch)
+MinLen(tok)      == IF tok \in {"default", "re_s2", "re_b2"} THEN 2 ELSE 1
 
 RECURSIVE Scan(_, _, _, _)
 Scan(tok, s, p, cur) ==
@@ -76,7 +77,25 @@ Scan(tok, s, p, cur) ==
   IF p > Len(s) THEN flush
   ELSE IF InClass(tok, s[p]) THEN Scan(tok, s, p + 1, Append(cur, s[p]))
   ELSE flush \o Scan(tok, s, p + 1, <<>>)
-Tokens(tok, s) == Scan(tok, s, 1, <<>>)
+
+\*   "re_b2"    Tokenizer::Regex(\b[^ ][^ ]+\b), the custom regex of linfa's own tests.  Regexes of the shape
+\*   \b C C+ \b are modelled with the search semantics of the regex crate: leftmost match; C+ is greedy and
+\*   gives characters back until the match ends at a word boundary; the search resumes at the end of a match.
+\*   (For C = \w this is "maximal runs of length >= 2" -- invariant InvRegex of the design model.)
+Bnd(s, p) == (p > 1 /\ IsWordCh(s[p - 1])) # (p <= Len(s) /\ IsWordCh(s[p]))       \* \b between s[p-1] and s[p]
+InC(cls, ch) == IF cls = "word" THEN IsWordCh(ch) ELSE ch # 32
+RECURSIVE RunEnd(_, _, _)
+RunEnd(cls, s, p) == IF p > Len(s) THEN p ELSE IF ~InC(cls, s[p]) THEN p ELSE RunEnd(cls, s, p + 1)
+MatchEnd(cls, s, p) ==          \* 0 = no match starts at p ; otherwise the position after the match
+  IF ~Bnd(s, p) \/ ~InC(cls, s[p]) THEN 0
+  ELSE LET Q == {q \in (p + 2)..RunEnd(cls, s, p) : Bnd(s, q)} IN IF Q = {} THEN 0 ELSE MaxSet(Q)
+RECURSIVE ScanB(_, _, _)
+ScanB(cls, s, p) ==
+  IF p > Len(s) THEN <<>>
+  ELSE LET q == MatchEnd(cls, s, p) IN
+       IF q = 0 THEN ScanB(cls, s, p + 1) ELSE <<SubSeq(s, p, q - 1)>> \o ScanB(cls, s, q)
+
+Tokens(tok, s) == IF tok = "re_b2" THEN ScanB("nonsp", s, 1) ELSE Scan(tok, s, 1, <<>>)
 
 DocToks(stt, doc) == Tokens(stt.tok, Canon(stt, doc))
 
@@ -341,6 +360,7 @@ InvTokens ==
      /\ Canon(st, cs) = cs
      /\ \A q \in 1..Len(toks) : Len(toks[q]) >= MinLen(st.tok) /\ \A p \in 1..Len(toks[q]) : InClass(st.tok, toks[q][p])
      /\ Tokens(st.tok, JoinTok(toks, 1, Len(toks))) = toks
+     /\ ScanB("word", cs, 1) = Scan("default", cs, 1, <<>>)       \* InvRegex: \b\w\w+\b = maximal \w runs of length >= 2
      /\ \A p \in 1..Len(corpus[d]) : corpus[d][p] \in Alphabet
 
 =============================================================================
